@@ -25,6 +25,7 @@ type ReplayFile struct {
 	Oracle   string     `json:"oracle"`
 	Key      string     `json:"key"`
 	Msg      string     `json:"msg"`
+	SchedMode string    `json:"sched_mode"` // "uniform" (also when absent) or "priority"
 	Tape     []Decision `json:"tape"`
 	Trace    []string   `json:"trace"`
 	Faults   map[string]int `json:"faults"`
@@ -46,9 +47,34 @@ func envInt(name string, def int) int {
 // scenario the tape would pick.
 var ForceScenario = os.Getenv("VERIF_SCENARIO")
 
+// ForceSchedMode, when set (a replay file), overrides the scheduling mode
+// that the seed and run number would select.
+var ForceSchedMode string
+
+// SchedModeFor derives the scheduling discipline of a run from the seed and
+// the run number alone: two thirds of the runs choose uniformly among the
+// parked tasks at every step, one third run by priorities with a few change
+// points (after Burckhardt et al., "A Randomized Scheduler with Probabilistic
+// Guarantees of Finding Bugs"), which holds a task back for long stretches -
+// something a uniform choice practically never does.
+func SchedModeFor(seed uint64, no int) string {
+	x := seed*0x9E3779B97F4A7C15 ^ uint64(no+1)*0xBF58476D1CE4E5B9
+	x ^= x >> 31
+	x *= 0x94D049BB133111EB
+	x ^= x >> 29
+	if x%3 == 0 {
+		return "priority"
+	}
+	return "uniform"
+}
+
 // Execute runs one execution of the property's scenario chosen by the tape.
 func Execute(prop string, seed uint64, no int, t *Tape) (r *Run) {
 	r = NewRun(prop, seed, no, t)
+	r.SchedMode = SchedModeFor(seed, no)
+	if ForceSchedMode != "" {
+		r.SchedMode = ForceSchedMode
+	}
 	s := pickScenario(prop, t)
 	if name := ForceScenario; name != "" {
 		s = FindScenario(prop, name)
@@ -234,7 +260,7 @@ func writeReplay(p string, rf *ReplayFile) error {
 	// one top-level key per line, tape on one line: readable and compact
 	var m map[string]json.RawMessage
 	if json.Unmarshal(b, &m) == nil {
-		keys := []string{"property", "scenario", "seed", "run", "oracle", "key", "msg", "minimised", "original_tape_len", "tree", "faults", "tape", "trace"}
+		keys := []string{"property", "scenario", "seed", "run", "sched_mode", "oracle", "key", "msg", "minimised", "original_tape_len", "tree", "faults", "tape", "trace"}
 		var sb strings.Builder
 		sb.WriteString("{\n")
 		for i, k := range keys {
@@ -341,7 +367,7 @@ func minimise(prop string, seed uint64, no int, r *Run, v Violation, budget time
 			msg = fv.Msg
 		}
 	}
-	return &ReplayFile{Property: prop, Scenario: fin.Scenario, Seed: seed, Run: no, Oracle: v.Oracle, Key: v.Key, Msg: msg,
+	return &ReplayFile{Property: prop, Scenario: fin.Scenario, Seed: seed, Run: no, Oracle: v.Oracle, Key: v.Key, Msg: msg, SchedMode: fin.SchedMode,
 		Tape: fin.T.Rec, Trace: fin.Trace, Faults: fin.Faults, Minimised: min, OrigLen: orig, Tree: os.Getenv("VERIF_TREE")}
 }
 
@@ -361,6 +387,10 @@ func replayMain(out *outWriter, prop, path string) {
 		os.Exit(2)
 	}
 	ForceScenario = rf.Scenario
+	ForceSchedMode = rf.SchedMode
+	if ForceSchedMode == "" {
+		ForceSchedMode = "uniform"
+	}
 	r := Execute(prop, rf.Seed, rf.Run, NewReplay(rf.Tape, true))
 	if ie := r.Notes["internal_error"]; ie != "" {
 		out.emit(map[string]any{"type": "error", "msg": ie})
